@@ -9,6 +9,8 @@ mod common;
 mod fam_filter;
 mod fam_retry;
 mod fam_match;
+mod evs;
+mod fam_pipe;
 
 use std::{collections::BTreeMap, collections::HashSet, fs, io::Write as _, path::Path};
 
@@ -20,6 +22,9 @@ fn families() -> Vec<(&'static str, fn(&mut Rng) -> Case)> {
         ("filter.feature", fam_filter::gen_filter),
         ("retry.resolve", fam_retry::gen_resolve),
         ("match.find", fam_match::gen_find),
+        ("pipe.comb", fam_pipe::gen_comb),
+        ("pipe.summ", fam_pipe::gen_summ),
+        ("pipe.verdict", fam_pipe::gen_verdict),
     ]
 }
 
